@@ -422,8 +422,32 @@ def with_oracle(pid, extra_fn=None):
     return run
 
 
-for _p in ("C14", "C19", "C10", "C11", "C09", "C16"):
+for _p in ("C14", "C19", "C10", "C11", "C09"):
     EXTRA[_p] = with_oracle(_p)
+
+
+def c16_lean(pid, tier, seed):
+    """Index decoders of the skip-sampling generators: Lean definitions generated from the real return expressions,
+    spec functions + proofs checked by Lean's kernel (pyvc/leanvc.py, pyvc/lean/decode_theorems.lean)."""
+    from . import leanvc
+    res, ver, defs = leanvc.run(os.path.join(ROOT, "out", pid, "lean" if os.path.realpath(extract.REPO) == "/repo" else "lean-scratch"))
+    obs = []
+    for r in res:
+        o = obligation("C16/lean:%s/%s" % (r["function"], r["name"].split(":")[-1]), r["status"] == "discharged", reason=r["reason"],
+                       where=leanvc.UNIFORM + r["function"], secs=r["secs"], props=("C16",), clause=r["theorem"])
+        o["status"] = r["status"]  # `unknown`: a failed Lean proof is undecided, never a refutation
+        o["backend"] = "lean4 kernel (%s; Mathlib tactics ring/linarith/simp/omega)" % ver.split(",")[0].replace("Lean (version ", "Lean ")
+        o["kind"] = "lemma"
+        obs.append(o)
+    return dict(obligations=obs, violations=[], bounded=[], functions=sorted({"uniform." + r["function"] for r in res}),
+                trusted=["AST -> Lean translation of the decoder return expressions (pyvc/leanvc.py): " + "; ".join(leanvc.ASSUMPTIONS),
+                         "Lean 4 kernel and the Mathlib lemmas the proofs cite (axioms allowed: propext, Classical.choice, Quot.sound; checked with #print axioms)"],
+                assumptions=["decoder extraction drops: " + "; ".join(leanvc.DROPS),
+                             "_index_to_edge_comb (binomial unranking, while loop) is not under a Lean contract: bounded oracle only",
+                             "the generators that call the decoders (skip sampling, probabilities, seeds) are covered by the bounded oracle only"])
+
+
+EXTRA["C16"] = with_oracle("C16", c16_lean)
 
 
 def c09_typed(pid, tier, seed):
